@@ -28,7 +28,7 @@ pub fn families() -> Vec<Family> {
             "pipelined request sequences to the real WebSocketServer (inline routes on the reader, _blocking routes off-reader on simulated threads) vs. routing/dispatch model, and field-by-field vs. the real AsyncServer on the same sequence",
             c03_ws_server,
         )
-        .runs(2_000, 80_000)
+        .runs(8_000, 480_000)
         .steps(3_000_000)
         .tokio(),
         Family::new(
@@ -37,7 +37,7 @@ pub fn families() -> Vec<Family> {
             "WebSocketServer outbound path under concurrent inline responses, off-reader responses, handler-pushed notifies and registry broadcasts with a stalling client: every binary message is exactly one whole frame with its own body",
             c05_ws_server,
         )
-        .runs(1_500, 60_000)
+        .runs(12_000, 720_000)
         .steps(3_000_000)
         .tokio(),
     ]
